@@ -39,6 +39,7 @@ using namespace vfh;
 static std::string g_entry = "?";
 static int g_announce_fd = -1;
 static void (*g_after_entry)() = nullptr;   // cx_newfail.cpp: arms the allocation-failure injection once the input is parsed
+static void (*g_before_output)() = nullptr; // cx_newfail.cpp: disarms it before the harness prints the digest
 static bool g_no_iostream = false;          // cx_newfail.cpp: std::ostream swallows bad_alloc (badbit), so tree printing is skipped
 // names the public entry point of the current case; in a forked child the name is sent to the parent BEFORE the
 // operation runs, so that a crash/hang/sanitizer abort is attributed to the entry point.
@@ -443,11 +444,14 @@ static void run_case(Toks& t, std::ostream& os) {
     else if (k == "nullref") { std::vector<int> v; const int& r = v[0]; g_dg.add((uint64_t)(uintptr_t)&r); }
     else if (k == "segv") { volatile int* p = (int*)8; g_dg.add((uint64_t)*p); }
     else if (k == "abort") { std::abort(); }
+    else if (k == "swallow") { for (int i = 0; i < 6; ++i) { try { std::vector<int> v((size_t)100 + i); g_dg.add(v.size()); } catch (const std::bad_alloc&) { g_dg.add(7); } } }
+    else if (k == "dtor-uaf") { struct Bad { int* p = new int[4]; ~Bad() { delete[] p; volatile int* q = p; g_dg.add((uint64_t)q[0]); } } b; std::vector<int> v(1000); g_dg.add(v.size()); }
     else if (k == "ok") { g_dg.add(1); }
   } else {
     os << "unknown-command";
     return;
   }
+  if (g_before_output) g_before_output();
   os << std::hex << g_dg.h << std::dec << ' ' << g_dg.n;
 #ifdef USINGZ
   os << " z" << g_zcalls;
@@ -541,14 +545,14 @@ template <typename F> static Verdict supervise(const std::string& line, long tim
   }
   if (ent == "?" || ent.empty()) { Toks t(line); ent = t.more() ? "cmd." + t.next() : "?"; }   // died while parsing: use the command word
   if (!progress.empty()) progress = "[" + progress + "] ";
-  bool san = se.find("runtime error:") != std::string::npos || se.find("Sanitizer") != std::string::npos;
+  bool san = se.find("runtime error:") != std::string::npos || se.find("Sanitizer:") != std::string::npos;
   if (killed) { v.status = killed; v.detail = progress + "rss_peak_mb=" + std::to_string(peak) + " " + flat(se, 1500); }
   else if (WIFSIGNALED(st) && (WTERMSIG(st) == SIGXCPU || WTERMSIG(st) == SIGKILL)) { v.status = "HANG"; v.detail = progress + "cpu-limit signal=" + std::to_string(WTERMSIG(st)) + " " + flat(se, 1500); }
   else if (WIFEXITED(st) && WEXITSTATUS(st) == 77) { v.status = "LEAK"; v.detail = flat(se, 6000); }
   else if (san) { v.status = "SAN"; v.detail = progress + "exit=" + std::to_string(WIFEXITED(st) ? WEXITSTATUS(st) : -WTERMSIG(st)) + " " + flat(se, 6000); }
   else if (WIFEXITED(st) && WEXITSTATUS(st) == 0) { v.status = "OK"; v.detail = det; }
   else if (WIFEXITED(st) && WEXITSTATUS(st) == 10) { v.status = "EXC"; v.detail = det; }
-  else if (WIFEXITED(st) && WEXITSTATUS(st) == 78) { v.status = "FAIL"; v.detail = flat(det, 3000); }
+  else if (WIFEXITED(st) && WEXITSTATUS(st) == 78) { v.status = "FAIL"; v.detail = flat(det, 3000) + (se.empty() ? "" : " || " + flat(se, 4000)); }
   else { v.status = "CRASH"; v.detail = progress + (WIFSIGNALED(st) ? "signal=" + std::to_string(WTERMSIG(st)) : "exit=" + std::to_string(WEXITSTATUS(st))) + " " + flat(se, 1500); }
   v.ent = ent;
   return v;
